@@ -91,6 +91,7 @@ type Run struct {
 	extra      map[string]any
 	bounds     map[string]any
 	hitCap     []string
+	freshTotal int64 // unexplained failing outcomes counted by the clauses (safety net for Finish)
 	known      []KnownFinding
 	knownHits  map[string]*knownHit
 	replayCase *replayFile
@@ -231,6 +232,8 @@ func Clause[T any](r *Run, name string, o Opts, gen func(emit func(T) bool), che
 		cases     int64
 		evals     int64
 		viol      []violation
+		nFresh    int // violations kept that no listed finding explains
+		nKnown    int // kept ones that a listed finding explains (separate budget: thousands of known ones must never crowd out a fresh one)
 		samples   []item[T]
 		lastItem  *item[T]
 		compactAt int
@@ -269,7 +272,15 @@ func Clause[T any](r *Run, name string, o Opts, gen func(emit func(T) bool), che
 						}
 					}
 					if out.Fail != "" {
-						if len(s.viol) < 64 {
+						keep := false
+						if out.Known == "" {
+							keep = s.nFresh < 64
+							s.nFresh++
+						} else {
+							keep = s.nKnown < 8
+							s.nKnown++
+						}
+						if keep {
 							b, _ := json.Marshal(it.c)
 							if out.ReplayCase != nil {
 								b, _ = json.Marshal(out.ReplayCase)
@@ -325,6 +336,7 @@ func Clause[T any](r *Run, name string, o Opts, gen func(emit func(T) bool), che
 	}
 	close(ch)
 	wg.Wait()
+	r.freshTotal += nviol.Load()
 	if stop.Load() && nviol.Load() >= 200 {
 		st.Exhaustive = false
 	}
@@ -570,6 +582,10 @@ func (r *Run) Finish() int {
 		fmt.Printf("KNOWN-FINDING: property=%s %s (matched on %d enumerated cases; first: %s)\n", r.ID, r.knownText(id), h.n, trunc(h.witness, 200))
 	}
 	if len(fresh) == 0 {
+		if r.freshTotal > 0 {
+			fmt.Printf("HARNESS-ERROR property=%s: %d failing outcomes were counted but none was kept for reporting\n", r.ID, r.freshTotal)
+			return 2
+		}
 		return 0
 	}
 	replayDir := filepath.Join(r.Root, "replays")
